@@ -46,6 +46,8 @@ func (ir *IntrospectionResolver) resolveSchema(schema *ast.Schema, selectionSet 
 
 	for _, f := range common.SelectionSetToFields(selectionSet, nil) {
 		switch f.Name {
+		case common.TypenameFieldName:
+			result[f.Alias] = "__Schema"
 		case "types":
 			types := []map[string]interface{}{}
 			// walk the types by name so the order does not depend on map iteration
@@ -97,6 +99,8 @@ func (ir *IntrospectionResolver) resolveType(schema *ast.Schema, typ *ast.Type, 
 	if typ.NonNull {
 		for _, f := range common.SelectionSetToFields(selectionSet, nil) {
 			switch f.Name {
+			case common.TypenameFieldName:
+				result[f.Alias] = "__Type"
 			case "kind":
 				result[f.Alias] = "NON_NULL"
 			case "ofType":
@@ -115,6 +119,8 @@ func (ir *IntrospectionResolver) resolveType(schema *ast.Schema, typ *ast.Type, 
 	if typ.Elem != nil {
 		for _, f := range common.SelectionSetToFields(selectionSet, nil) {
 			switch f.Name {
+			case common.TypenameFieldName:
+				result[f.Alias] = "__Type"
 			case "kind":
 				result[f.Alias] = "LIST"
 			case "ofType":
@@ -133,6 +139,8 @@ func (ir *IntrospectionResolver) resolveType(schema *ast.Schema, typ *ast.Type, 
 
 	for _, f := range common.SelectionSetToFields(selectionSet, nil) {
 		switch f.Name {
+		case common.TypenameFieldName:
+			result[f.Alias] = "__Type"
 		case "kind":
 			result[f.Alias] = namedType.Kind
 		case "name":
@@ -252,6 +260,8 @@ func (ir *IntrospectionResolver) resolveField(schema *ast.Schema, field *ast.Fie
 
 	for _, f := range common.SelectionSetToFields(selectionSet, nil) {
 		switch f.Name {
+		case common.TypenameFieldName:
+			result[f.Alias] = "__Field"
 		case "name":
 			result[f.Alias] = field.Name
 		case "description":
@@ -279,6 +289,8 @@ func (ir *IntrospectionResolver) resolveDirective(schema *ast.Schema, directive 
 
 	for _, f := range common.SelectionSetToFields(selectionSet, nil) {
 		switch f.Name {
+		case common.TypenameFieldName:
+			result[f.Alias] = "__Directive"
 		case "name":
 			result[f.Alias] = directive.Name
 		case "description":
@@ -319,6 +331,8 @@ func (ir *IntrospectionResolver) resolveInputValue(schema *ast.Schema, arg *ast.
 
 	for _, f := range common.SelectionSetToFields(selectionSet, nil) {
 		switch f.Name {
+		case common.TypenameFieldName:
+			result[f.Alias] = "__InputValue"
 		case "name":
 			result[f.Alias] = arg.Name
 		case "description":
@@ -344,6 +358,8 @@ func resolveEnumValue(enum *ast.EnumValueDefinition, selectionSet ast.SelectionS
 
 	for _, f := range common.SelectionSetToFields(selectionSet, nil) {
 		switch f.Name {
+		case common.TypenameFieldName:
+			result[f.Alias] = "__EnumValue"
 		case "name":
 			result[f.Alias] = enum.Name
 		case "description":
